@@ -35,3 +35,15 @@ package admin
 //@   serves C09
 //@   requires[env-built] s.router != nil && handler != nil
 //@   ensures[status-behind-auth] old(grpAuth[addr(s.router.RouterGroup)]) && !old(gOpenRoute) ==> !gOpenRoute
+
+// ---- shutdown order (C18): steps recorded for server.(*Server).Shutdown ---------------
+//@ contract (*Server).SetReady
+//@   trusted stores the readiness flag (atomic)
+//@   modifies-all $gShutStep $tReadyOff
+//@   ghost-set gShutStep = old(gShutStep) + 1
+//@   ghost-set tReadyOff = ready ? old(tReadyOff) : old(gShutStep) + 1
+//@ contract (*Server).Shutdown
+//@   trusted http.Server.Shutdown of the admin port
+//@   modifies-all $gShutStep $tAdminDown
+//@   ghost-set gShutStep = old(gShutStep) + 1
+//@   ghost-set tAdminDown = old(gShutStep) + 1
